@@ -46,6 +46,14 @@ type vpPeerT struct {
 
 var vpPeer vpPeerT
 
+// vpWriter stands for the connection's single-writer slot: gorilla allows ONE concurrent caller of the
+// write methods (NextWriter, WriteMessage, WriteJSON ...); Close and WriteControl may be called
+// concurrently with them. Every WriteMessage touches it, so the lockset analysis (and natively the race
+// detector) sees two unsynchronised writers.
+type vpWriter struct{ frames int }
+
+var vpTheWriter = &vpWriter{}
+
 type vpNetErr struct{ timeout bool }
 
 func (e vpNetErr) Error() string {
@@ -115,6 +123,11 @@ func vpWSNextReader(c *websocket.Conn) (int, io.Reader, error) {
 }
 
 func vpWSWriteMessage(c *websocket.Conn, mt int, b []byte) error {
+	vpTheWriter.frames++
+	return vpWSWrite(mt, b)
+}
+
+func vpWSWrite(mt int, b []byte) error {
 	if vpPeer.closed || vpPeer.mode == 2 || vpPeer.writeErr {
 		return vpNetErr{}
 	}
@@ -127,7 +140,7 @@ func vpWSWriteMessage(c *websocket.Conn, mt int, b []byte) error {
 }
 
 func vpWSWriteControl(c *websocket.Conn, mt int, b []byte, deadline time.Time) error {
-	return vpWSWriteMessage(c, mt, b)
+	return vpWSWrite(mt, b) // safe to call concurrently with the write methods (gorilla docs)
 }
 
 func vpWSClose(c *websocket.Conn) error {
@@ -410,4 +423,26 @@ func VP_C08_legacy_chunks() {
 	vpObserveBytes("got", got)
 	vpAssert(len(got) == len(want), "every-body-byte-is-delivered-once")
 	vpAssert(vpEqBytes(got, want), "body-bytes-delivered-unchanged-and-in-order")
+}
+
+//vp:property C09
+//vp:flag lockset
+//vp:bounds the websocket transport used as the tunnel uses it: one goroutine (the relay) inside WritePacket while another (the handler's deferred clean-up) calls Close, which the tunnel's write lock does not cover
+//vp:assume gorilla/websocket: one concurrent caller of the write methods; Close and WriteControl may run concurrently with them
+//vp:reach done
+func VP_C09_transport_writers() {
+	vpThread("setup")
+	vpPeer = vpPeerT{}
+	vpTheWriter = &vpWriter{}
+	w := &WSPKT{Conn: new(websocket.Conn)}
+	vpPar(func() {
+		vpThread("relay")
+		w.WritePacket([]byte{1, 2, 3})
+	}, func() {
+		vpThread("cleanup")
+		w.Close()
+	})
+	vpThread("setup")
+	vpReach("done")
+	vpAssert(vpPeer.closed, "closed")
 }
